@@ -77,7 +77,13 @@ def strategy(tier):
                                  (2, st.tuples(st.just('state'), st.integers(0, 20), st.sampled_from(['closed', 'closed', 'idle', 'open'])).map(list)),
                                  (1, st.just(['gc']))), 0, 30),
   })
-  return weighted((2, single), (1, ref), (1, shared))
+  real = st.fixed_dictionaries({
+      'kind': st.just('singleton_mux'),
+      'connect_ms': st.sampled_from([1, 5, 8]), 'pong_ms': st.sampled_from([1, 5, 10]),
+      'ops': sized_list(weighted((3, st.just(['open'])), (3, st.just(['close'])),
+                                 (4, st.tuples(st.just('advance'), st.sampled_from([0, 1, 3, 6, 12, 30])).map(list))), 1, 14),
+  })
+  return weighted((4, single), (2, ref), (2, shared), (1, real))
 
 
 class Conn(ClientMessageSink):
@@ -516,8 +522,64 @@ def _exec_shared(plan):
   return Outcome(nontrivial=None, classes=['shared'] + (['dropped'] if dropped else []) + (['two_providers'] if two else []))
 
 
+def _exec_singleton_mux(plan):
+  """SingletonPoolSink over the real ThriftMux transport on the simulated network: holders open and close it while the
+  connect / handshake of the one connection is still in progress.  At most one connection is alive at any time, and none
+  once every holder has closed."""
+  from vf.simnet import SimNet, Server
+  from vf.peers.mux import MuxPeer
+  from test.scales.thrift.gen_py.hello import Hello
+  from scales.thriftmux.sink import SocketTransportSink as MuxTransport
+  net = SimNet()
+  net.install()
+  peer = MuxPeer(Hello.Processor, lambda m, a: 'echo', ping=lambda k: ['pong', plan['pong_ms'] / 1000.0])
+  srv = Server(net, ('127.0.0.1', 7200), peer)
+  srv.default_connect = ['accept', plan['connect_ms'] / 1000.0]
+  top = SingletonPoolSink.Builder()
+  top.next_provider = MuxTransport.Builder()
+  pool = top.CreateSink({SinkProperties.Label: 'svc', SinkProperties.Endpoint: ScalesUriParser.Endpoint('127.0.0.1', 7200)})
+  holders = 0
+  flags = set()
+
+  def live():
+    return [sk for sk in net.sockets if sk.connected and not sk.closed]
+
+  def check(where):
+    if len(live()) > 1:
+      raise Violation(ID, 'two-connections', 'singleton pool over the ThriftMux transport: %d connections alive %s' % (len(live()), where))
+  for step, op in enumerate(plan['ops']):
+    where = '(step %d: %r)' % (step, op)
+    if op[0] == 'open':
+      pool.Open()
+      holders += 1
+    elif op[0] == 'close':
+      if holders:
+        holders -= 1
+        if holders == 0 and [sk for sk in net.sockets if not sk.closed and not sk.connected] or (holders == 0 and pool.state == ChannelState.Idle and net.sockets):
+          flags.add('last_holder_closed_while_connecting')
+        try:
+          pool.Close()
+        except Exception as e:
+          raise Violation(ID, 'close-raised', 'Close() raised %r %s' % (e, where))
+    else:
+      advance(op[1] / 1000.0)
+    settle()
+    check(where)
+  while holders:
+    holders -= 1
+    pool.Close()
+    settle()
+  advance(0.2)
+  check('(final)')
+  if live():
+    raise Violation(ID, 'connection-outlives-holders', 'every holder of the singleton pool has closed it, but %d ThriftMux connection(s) are still open' % len(live()))
+  return Outcome(nontrivial=sorted(flags) or None, classes=['singleton_over_thriftmux'] + sorted(flags))
+
+
 def execute(plan):
   with World(seed=0):
+    if plan['kind'] == 'singleton_mux':
+      return _exec_singleton_mux(plan)
     if plan['kind'] == 'singleton':
       return _exec_singleton(plan)
     if plan['kind'] == 'refcount':
